@@ -32,7 +32,8 @@ EXPLANATION = (
     'route.attrs and the schema with one and the same name set. R4: filter errors (lexer errors '
     'merged unconditionally), unknown -w/-b namespaces and unknown -a names each reach '
     'sys.exit(1) before Compiler(...) is constructed; `:all` keeps the other given names. '
-    'Decides these structural parts; argparse behaviour itself is trusted.')
+    'Decides these structural parts; argparse behaviour itself is trusted.'
+    ' RD (decision drift, stonelint.conddrift): the tests of the functions this property is anchored in (stonelint.ownership) are compared with reference/conditions.json; a relation, polarity or connective changed over the same operands, or an operand purely added or dropped, is a violation; re-spellings and new or removed tests are not claimed.')
 ASSUMPTIONS = [
     'yacc precedence semantics: entries later in the precedence tuple bind tighter; on a '
     'shift/reduce conflict equal precedence + left associativity reduces (ply documentation)',
@@ -364,6 +365,10 @@ def run(pm, ctx):
                 unparse(c.func) == 'self.errors.append')
     ctx.check('C19-R4', n_app == 2, 'syntax errors and unexpected end are recorded', perr.loc,
               msg='p_error records %d kinds of error' % n_app, key='C19-R4|%s' % perr.qualname)
+
+    from ..conddrift import run_decisions
+    from ..ownership import OWN
+    run_decisions(pm, ctx, 'C19-RD', OWN['C19'])
 
 
 def _site(pi, n):
